@@ -527,8 +527,15 @@ def _pdhg_post(st, alg, opts):
                 obs.append(("PDHG:tau==1/lambda_max(K^H sigma K)", [], z3.And(_same(Mop.apply(xs), want), core._lift(tau) * v.t == 1)))
             else:
                 us = PVec([sp.base("ug1", 1), sp.base("ug2", 2)]) if K.kind == "vstack" else sp.base("ug1", 1)
-                got, want = Mop.apply(us), K.apply(K.H.apply(us) * tau)
-                same = z3.And(*[_same(a, b) for a, b in zip(got.parts, want.parts)]) if isinstance(got, PVec) else _same(got, want)
+                want = K.apply(K.H.apply(us) * tau)
+                try:
+                    got = Mop.apply(us)
+                    if isinstance(got, PVec) != isinstance(want, PVec):
+                        same = z3.BoolVal(False)
+                    else:
+                        same = z3.And(*[_same(a, b) for a, b in zip(got.parts, want.parts)]) if isinstance(got, PVec) else _same(got, want)
+                except (core.Unsupported, AttributeError, TypeError):
+                    same = z3.BoolVal(False)        # the operator handed to the power iteration does not even act on the dual space of K
                 obs.append(("PDHG:sigma==1/lambda_max(K tau K^H)", [], z3.And(same, core._lift(sigma) * v.t == 1)))
     # acceleration parameters must describe strong convexity that is really there
     gp, gd = alg.kw.get("gamma_primal", 0), alg.kw.get("gamma_dual", 0)
